@@ -217,6 +217,9 @@ def encrypt_json(
     attached: list[tuple[Recipient[Key], str]] = []
     try:
         for recipient in obj.recipients:
+            if recipient.ephemeral_key is None:
+                # an ephemeral key generated for this call is dropped after it as well
+                attached.append((recipient, "ephemeral_key"))
             if sender_key and not recipient.sender_key:
                 recipient.sender_key = _guess_sender_key(recipient, sender_key, True)
                 attached.append((recipient, "sender_key"))
